@@ -24,7 +24,7 @@ use std::mem::MaybeUninit;
 use std::os::unix::io::AsRawFd;
 use std::ptr;
 use std::sync::atomic::{AtomicBool, Ordering};
-use std::sync::{Arc, Mutex};
+use std::sync::{Arc, Mutex, PoisonError};
 
 use libc::{self, c_int};
 
@@ -63,7 +63,12 @@ impl DeliveryState {
 
 impl Drop for DeliveryState {
     fn drop(&mut self) {
-        let lock = self.registered_signal_ids.lock().unwrap();
+        // A panic inside `add_signal` (eg. a forbidden signal) poisons the lock, but never leaves
+        // the table half-updated, so the poison can be ignored.
+        let lock = self
+            .registered_signal_ids
+            .lock()
+            .unwrap_or_else(PoisonError::into_inner);
         for id in lock.iter().filter_map(|s| *s) {
             crate::low_level::unregister(id);
         }
@@ -190,7 +195,13 @@ impl Handle {
     /// * If the relevant [`Exfiltrator`] does not support this particular signal. The default
     ///   [`SignalOnly`] one supports all signals.
     pub fn add_signal(&self, signal: c_int) -> Result<(), Error> {
-        let mut lock = self.delivery_state.registered_signal_ids.lock().unwrap();
+        // The documented panics below (forbidden or out-of-range signal) happen with the lock
+        // held. They never leave the table half-updated, so a poisoned lock is still fine to use.
+        let mut lock = self
+            .delivery_state
+            .registered_signal_ids
+            .lock()
+            .unwrap_or_else(PoisonError::into_inner);
         // Already registered, ignoring
         if lock[signal as usize].is_some() {
             return Ok(());
